@@ -17,7 +17,7 @@ from vlib.dialects import make_encoder, ENCODERS
 
 ID = "C12"
 LEVEL = "exploration"
-BUDGET = {"quick": 60, "thorough": 700}
+BUDGET = {"quick": 200, "thorough": 1200}
 RULE = (
     "case = (encoder, options, module spec) as in C01; refusals are skipped and "
     "counted. Non-trivial = output with >= 1 block, >= 1 wrapped statement (more "
